@@ -11,6 +11,7 @@ pub mod c05;
 pub mod c06;
 pub mod c07;
 pub mod c08;
+pub mod c09;
 pub mod c10;
 pub mod tunnelreq;
 pub mod c11;
@@ -31,6 +32,8 @@ pub struct PropDef {
     pub run: fn(&mut Ctx),
     pub replay: fn(&mut Ctx, &str, &Value) -> bool,
     pub workers: fn(Tier) -> u32,
+    /// cargo-fuzz targets run in the thorough tier
+    pub fuzz: &'static [&'static str],
 }
 
 fn w16(_: Tier) -> u32 {
@@ -44,6 +47,7 @@ pub static PROPS: &[PropDef] = &[
         run: c01::run,
         replay: c01::replay,
         workers: w16,
+        fuzz: &[],
     },
     PropDef {
         id: "C02",
@@ -51,6 +55,7 @@ pub static PROPS: &[PropDef] = &[
         run: c02::run,
         replay: c02::replay,
         workers: w16,
+        fuzz: &[],
     },
     PropDef {
         id: "C03",
@@ -58,6 +63,7 @@ pub static PROPS: &[PropDef] = &[
         run: c03::run,
         replay: c03::replay,
         workers: w16,
+        fuzz: &[],
     },
     PropDef {
         id: "C07",
@@ -65,6 +71,7 @@ pub static PROPS: &[PropDef] = &[
         run: c07::run,
         replay: c07::replay,
         workers: w16,
+        fuzz: &[],
     },
     PropDef {
         id: "C08",
@@ -72,6 +79,15 @@ pub static PROPS: &[PropDef] = &[
         run: c08::run,
         replay: c08::replay,
         workers: w16,
+        fuzz: &["h1_heads"],
+    },
+    PropDef {
+        id: "C09",
+        level: "exploration",
+        run: c09::run,
+        replay: c09::replay,
+        workers: w16,
+        fuzz: &["udp_decoder", "icmp_packets", "client_random", "h1_heads", "socks5_server_bytes"],
     },
     PropDef {
         id: "C10",
@@ -79,6 +95,7 @@ pub static PROPS: &[PropDef] = &[
         run: c10::run,
         replay: c10::replay,
         workers: w16,
+        fuzz: &[],
     },
     PropDef {
         id: "C11",
@@ -86,6 +103,7 @@ pub static PROPS: &[PropDef] = &[
         run: c11::run,
         replay: c11::replay,
         workers: w16,
+        fuzz: &["icmp_packets"],
     },
     PropDef {
         id: "C12",
@@ -93,6 +111,7 @@ pub static PROPS: &[PropDef] = &[
         run: c12::run,
         replay: c12::replay,
         workers: w16,
+        fuzz: &["client_random"],
     },
     PropDef {
         id: "C13",
@@ -100,6 +119,7 @@ pub static PROPS: &[PropDef] = &[
         run: c13::run,
         replay: c13::replay,
         workers: w16,
+        fuzz: &[],
     },
     PropDef {
         id: "C14",
@@ -107,6 +127,7 @@ pub static PROPS: &[PropDef] = &[
         run: c14::run,
         replay: c14::replay,
         workers: w16,
+        fuzz: &[],
     },
     PropDef {
         id: "C04",
@@ -114,6 +135,7 @@ pub static PROPS: &[PropDef] = &[
         run: c04::run,
         replay: c04::replay,
         workers: w16,
+        fuzz: &[],
     },
     PropDef {
         id: "C05",
@@ -121,6 +143,7 @@ pub static PROPS: &[PropDef] = &[
         run: c05::run,
         replay: c05::replay,
         workers: w16,
+        fuzz: &[],
     },
     PropDef {
         id: "C15",
@@ -128,6 +151,7 @@ pub static PROPS: &[PropDef] = &[
         run: c15::run,
         replay: c15::replay,
         workers: w16,
+        fuzz: &["socks5_server_bytes"],
     },
     PropDef {
         id: "C16",
@@ -135,6 +159,7 @@ pub static PROPS: &[PropDef] = &[
         run: c16::run,
         replay: c16::replay,
         workers: w16,
+        fuzz: &[],
     },
     PropDef {
         id: "C17",
@@ -142,6 +167,7 @@ pub static PROPS: &[PropDef] = &[
         run: c17::run,
         replay: c17::replay,
         workers: w16,
+        fuzz: &[],
     },
     PropDef {
         id: "C18",
@@ -149,6 +175,7 @@ pub static PROPS: &[PropDef] = &[
         run: c18::run,
         replay: c18::replay,
         workers: w16,
+        fuzz: &[],
     },
     PropDef {
         id: "C19",
@@ -156,6 +183,7 @@ pub static PROPS: &[PropDef] = &[
         run: c19::run,
         replay: c19::replay,
         workers: w16,
+        fuzz: &[],
     },
     PropDef {
         id: "C20",
@@ -163,6 +191,7 @@ pub static PROPS: &[PropDef] = &[
         run: c20::run,
         replay: c20::replay,
         workers: w16,
+        fuzz: &[],
     },
     PropDef {
     id: "C06",
@@ -170,6 +199,7 @@ pub static PROPS: &[PropDef] = &[
     run: c06::run,
     replay: c06::replay,
     workers: w16,
+        fuzz: &["udp_decoder"],
 }
 ];
 
